@@ -97,6 +97,11 @@ def h_store_serial(serial: bytes, which: int, storage: str) -> None:
     t = T.meta(b'w', b'store with symbolic serial')
     s.tpc_begin(t)
     raised = False
+    first = None
+    if n != 3:
+        # the writer's transaction also writes another object, legitimately, before the one in question
+        first = T.oid(3)
+        s.store(first, h.m.revs(first)[-1][0], NEW[3], '', t)
     try:
         s.store(o, serial, NEW[n], '', t)
     except ConflictError:
@@ -117,6 +122,14 @@ def h_store_serial(serial: bytes, which: int, storage: str) -> None:
         if expect is None:
             s.tpc_abort(t)
             _bat(s, h.m)                      # nothing stored
+            # ... and nothing of the refused transaction leaks into the next one
+            t2 = T.meta(b'w', b'after the conflict')
+            s.tpc_begin(t2)
+            s.store(T.oid(77), T.Z64, b'unrelated-new-object', '', t2)
+            s.tpc_vote(t2)
+            tid2 = s.tpc_finish(t2)
+            h.m.add(MTxn(tid2, [MRec(T.oid(77), b'unrelated-new-object')], b'w', b'after the conflict'))
+            _bat(s, h.m)
         else:
             res = s.tpc_vote(t)
             tid = s.tpc_finish(t)
@@ -137,7 +150,7 @@ def h_store_serial(serial: bytes, which: int, storage: str) -> None:
             else:
                 check(not res or o not in list(res), 'unresolved store reported as resolved')
                 check(data == expect, 'stored bytes differ from what the writer sent')
-            h.m.add(MTxn(tid, [MRec(o, data)], b'w', b'store with symbolic serial'))
+            h.m.add(MTxn(tid, ([MRec(first, NEW[3])] if first else []) + [MRec(o, data)], b'w', b'store with symbolic serial'))
             _bat(s, h.m)
     reached()
 
@@ -206,6 +219,74 @@ def h_check_current(serial: bytes, which: int, storage: str) -> None:
     with untraced():
         s.tpc_abort(t)
         _bat(s, h.m)
+    reached()
+
+
+def h_read_current(use_sp: bool, when: int, also_write: bool, storage: str) -> None:
+    """Connection level: a transaction declares with readCurrent(x) that it depends on x being current;
+    another connection commits x at a solver-chosen moment; the commit must then fail
+    (ReadConflictError, or ConflictError if x is also written) and store nothing - with and without a
+    savepoint in the transaction."""
+    with untraced():
+        import transaction
+        import ZODB
+        from ZODB.POSException import ConflictError
+        env = T.Env()
+        if storage == 'file':
+            s = env.filestorage()
+        elif storage == 'mapping':
+            s = env.mappingstorage()
+        else:
+            s = ZODB.DemoStorage.DemoStorage(base=env.mappingstorage())
+        db = ZODB.DB(s)
+        tm0 = transaction.TransactionManager()
+        c0 = db.open(tm0)
+        c0.root()['x'] = pobj.PObj(v=1)
+        c0.root()['y'] = pobj.PObj(v=1)
+        tm0.commit()
+        tm, tmo = transaction.TransactionManager(), transaction.TransactionManager()
+        c, co = db.open(tm), db.open(tmo)
+    w = choose(when, 4)         # 0: never, 1: before readCurrent, 2: after readCurrent, 3: after the savepoint / last write
+    with untraced():
+        def other():
+            tmo.begin()
+            co.root()['x'].v += 100
+            tmo.commit()
+        tm.begin()
+        x, y = c.root()['x'], c.root()['y']
+        x.v                                     # loaded: the transaction has seen revision 1 of x
+        if w == 1:
+            other()
+        c.readCurrent(x)
+        if w == 2:
+            other()
+        y.v = 2
+        if also_write:
+            x.v = 5
+        if use_sp:
+            tm.savepoint()
+            y.v = 3
+        if w == 3:
+            other()
+        before = s.lastTransaction()
+        try:
+            tm.commit()
+            ok = True
+        except ConflictError:               # ReadConflictError is a ConflictError
+            ok = False
+            tm.abort()
+        note('case', 'sp=%s when=%d write=%s' % (use_sp, w, also_write))
+        check(ok == (w == 0), 'commit of a transaction whose declared dependency changed was accepted (or a valid one refused)', w, ok)
+        if not ok:
+            check(s.lastTransaction() == before, 'failed commit stored a transaction')
+            tm.begin()
+            check(c.root()['y'].v == 1, 'aborted change still visible after the conflict', c.root()['y'].v)
+            # a retry on fresh state succeeds
+            c.root()['x'].v                  # read it (readCurrent is about objects the transaction has read)
+            c.readCurrent(c.root()['x'])
+            c.root()['y'].v = 7
+            tm.commit()
+        db.close()
     reached()
 
 
@@ -289,6 +370,13 @@ HARNESSES = [
             code=['BaseStorage.checkCurrentSerialInTransaction'],
             quick=dict(timeout=100, shards=shards(storage=_ST)),
             thorough=dict(timeout=300, shards=shards(storage=_ST))),
+    Harness('read_current', h_read_current,
+            decides='Connection.readCurrent: if the declared dependency is changed by another connection at any of 3 moments, the commit '
+                    'fails and stores nothing (with/without savepoint, with/without also writing the object); otherwise it succeeds',
+            symbolic='moment selector (never / before / after readCurrent / after the last write)', bounds='2 objects, 2 connections',
+            oracle='outcome table', code=['Connection.readCurrent', 'Connection.commit (readCurrent verification)', '_commit_savepoint', 'tpc_vote'],
+            quick=dict(timeout=100, shards=shards(use_sp=[False, True], also_write=[False, True], storage=['file', 'mapping', 'demo'])),
+            thorough=dict(timeout=100, shards=shards(use_sp=[False, True], also_write=[False, True], storage=['file', 'mapping', 'demo']))),
     Harness('commit_lock', h_commit_lock,
             decides='a second writer from the same base revision, injected anywhere into the first writer\'s 2PC, either '
                     'blocks, or exactly one of the two commits and the other gets ConflictError',
@@ -306,7 +394,6 @@ MANIFEST = dict(
          'decided by the solver, not sampled), plus a sequentialised two-writer schedule search in which the injection '
          'point of the second writer is a solver variable over every lock/file/API yield point of the first writer\'s 2PC.',
     note='object states are concrete representatives; 2 writers, 1 atomic injection (K=1); schedules below lock/file-op '
-         'granularity and more than two concurrent committers are outside the claim; Connection-level readCurrent '
-         'bookkeeping is exercised in C11.',
+         'granularity and more than two concurrent committers are outside the claim; Connection-level readCurrent by selector (read_current).',
     design_ref='DESIGN.md section 4, C03',
 )
